@@ -23,7 +23,7 @@ RULE = ('cases = (metric, y, y_hat) over the full product of the value alphabet,
         'non-zero expected value (the formula, not just the zero case, is exercised)')
 ASSUMPTIONS = ['y, y_hat >= 0 (logarithms / ratios)', 'relative tolerance 1e-12 (1e-9 for R2 near cancellation, absolute 1e-12 x (1 + rss/tss))',
                'alphabet only: this establishes the formulas on the alphabet, not on all reals (stated limit in DESIGN.md)']
-BOUNDS = {'quick': {'vector pairs': 'length 1..4 over {0,1/2,1,2,3} (5^8 at length 4)', 'scale family': 'length<=3, 7 rescalings', 'wrapper curves': 'A,P n<=4', 'large offsets (x+2^31, y+2^32, ...)': 'best-fit R2 on A12 n=4, G12Y013 n=5'},
+BOUNDS = {'quick': {'vector pairs': 'length 1..4 over {0,1/2,1,2,3} (5^8 at length 4)', 'scale family': 'length<=3, 7 rescalings', 'wrapper curves': 'A,P n<=4', 'wrapper vectors (x not increasing)': 'all (x,y) of length 1..4 over x in {0,1,2}, y in {0,1,3}', 'large offsets (x+2^31, y+2^32, ...)': 'best-fit R2 on A12 n=4, G12Y013 n=5'},
           'thorough': {'vector pairs': 'length 1..5 over {0,1/2,1,2,3} (5^10)', 'scale family': 'length<=4', 'wrapper curves': 'A,P n<=5'}}
 TECHNIQUE = 'exhaustive enumeration of small vector alphabets on the real (numba-jitted) kernels against textbook formulas (fsum / Fraction)'
 LEVEL_TEXT = ('Model checking by complete enumeration of the vector alphabet: every (y, y_hat) pair up to length 4 (5 thorough) for each metric and R2 variant, '
@@ -55,6 +55,8 @@ def units(tier, seed):
     for prof, n, K in plan:
         for k in range(K):
             u.append(('wrap', prof, n, k, K))
+    for m in range(1, (4 if tier == 'quick' else 5) + 1):
+        u.append(('wrapvec', m))
     for prof, n, K in ([('A12', 4, 4), ('G12Y013', 5, 8)] if tier == 'quick' else [('A12', 4, 4), ('A12', 5, 32), ('A1', 7, 32)]):
         for k in range(K):
             u.append(('offset', prof, n, k, K))
@@ -177,7 +179,7 @@ def check_wrappers(xs, ys):
         scale = max(abs(v) for v in ys) + abs(m) * max(abs(v) for v in xs) + 1e-300
         if (b, m) != (bp, mp):
             out.append(Failure('linear_fit.linear_fit_points', 'differs-from-linear_fit', key0, base, '%r vs %r' % ((b, m), (bp, mp)), (n, 0)))
-        if abs(b + m * xs[0] - ys[0]) > 1e-12 * scale or abs(b + m * xs[-1] - ys[-1]) > 1e-12 * scale:
+        if xs[0] != xs[-1] and (abs(b + m * xs[0] - ys[0]) > 1e-12 * scale or abs(b + m * xs[-1] - ys[-1]) > 1e-12 * scale):
             out.append(Failure('linear_fit.linear_fit', 'endpoint-fit-misses-an-end-point', key0, base,
                                'b=%r m=%r gives %r,%r for end points %r,%r' % (b, m, b + m * xs[0], b + m * xs[-1], ys[0], ys[-1]), (n, 0)))
         coefs = [(float(b), float(m))] + GRID_COEF
@@ -288,6 +290,23 @@ def check_offset(xs, ys, ox, oy):
 
 
 def run_unit(unit, res):
+    if unit[0] == 'wrapvec':
+        # the wrappers are stated for all equal-length vectors: x need not be increasing (single points,
+        # vertical segments, closed curves make the endpoint fit degenerate)
+        m = unit[1]
+        for xs in itertools.product((0, 1, 2), repeat=m):
+            for ys in itertools.product((0, 1, 3), repeat=m):
+                nt, fs = check_wrappers(list(xs), list(ys))
+                res.count('evaluations', 14 * 13)
+                res.count('states', 13)
+                res.count('transitions', 14 * 13)
+                res.count('nontrivial', nt)
+                res.count('wrapper_vector_cases')
+                for f in fs:
+                    res.fail(f)
+                if not fs:
+                    res.count('traces', 14 * 13)
+        return
     if unit[0] == 'offset':
         _, prof, n, k, K = unit
         P = curves.get(prof)
